@@ -497,9 +497,20 @@ BaseOp(op) == CASE op = "strict.source_trait" -> "strict.source" [] op = "strict
                 [] op = "strict.identity_trait" -> "strict.identity" [] op = "strict.spider_trait" -> "strict.spider"
                 [] op = "lax.identity_trait" -> "lax.identity" [] op = "lax.spider_trait" -> "lax.spider"
                 [] op = "lax.tensor_trait" -> "lax.tensor" [] OTHER -> op
+\* hand-written Clone and PartialEq impls: a clone equals its original, == is equality of the data
+CloneOps == {"ff.clone", "sf.clone", "ic.clone_ff", "ic.clone_sf", "hyper.clone", "strict.clone", "arrow.clone"}
+EqOps == {"sf.eq", "ic.eq_ff", "ic.eq_sf"}
+ConfClone(op, a, o) ==
+  CASE op = "ff.clone" -> ValIs(o, a.f) [] op = "sf.clone" -> ValIs(o, a.a)
+    [] op \in {"ic.clone_ff", "ic.clone_sf"} -> ValIs(o, a.ic)
+    [] op = "hyper.clone" -> ValIs(o, a.h) [] op = "strict.clone" -> ValIs(o, a.f)
+    [] op = "arrow.clone" -> ValIs(o, [source |-> a.source, target |-> a.target, w |-> a.w, x |-> a.x])
+    [] op \in EqOps -> ValIs(o, a.a = a.b)
+    [] OTHER -> FALSE
 ConfEvent(st, ev) ==
   LET op == BaseOp(ev.op)  a == ev.args  o == ev.obs IN
-  CASE op \in ArrOps -> ConfArr(op, a, o)
+  CASE op \in CloneOps \cup EqOps -> ConfClone(op, a, o)
+    [] op \in ArrOps -> ConfArr(op, a, o)
     [] op \in FFOps -> ConfFF(op, a, o)
     [] op \in ICOps -> ConfIC(op, a, o)
     [] op \in StrictOps -> ConfStrict(op, a, o)
